@@ -249,8 +249,21 @@ def prove_remove(src_root, ex: Explorer):
     ex.run(path, 'remove')
 
 
+def prove_stale_dispatch(src_root, ex: Explorer):
+    """Finality of abort needs that an operation issued on a STALE state object (a fail() / complete() / queue() that was waiting for the
+    state lock while abort ran) is re-dispatched on the state that is current once the lock is held - where ABORTED refuses it.  This is
+    the wrapper contract of C03 (_with_state_lock executed for real, transfer.state havocked at the lock acquisition); it is discharged
+    here too because C06 rests on it."""
+    from contracts import C03
+    C03.prove_wrapper(src_root, ex)
+    for ob in ex.obligations:
+        if ob.name.startswith('C03.wrapper'):
+            ob.name = 'C06.final.stale-dispatch' + ob.name[len('C03.wrapper'):]
+
+
 def items(src_root, tier):
-    return [('slot', None), ('assigns', None), ('callbacks', None), ('cancel', None), ('queue_remotely', None), ('request_site', None), ('remove', None)]
+    return [('slot', None), ('assigns', None), ('callbacks', None), ('cancel', None), ('queue_remotely', None), ('request_site', None), ('remove', None),
+            ('stale', None)]
 
 
 def run_item(src_root, item, tier):
@@ -259,12 +272,13 @@ def run_item(src_root, item, tier):
     kind, arg = item
     try:
         {'slot': prove_slot_selection, 'assigns': prove_manage_assigns, 'callbacks': prove_done_callbacks, 'cancel': prove_cancel_all,
-         'queue_remotely': prove_queue_remotely, 'request_site': prove_transfer_request_site, 'remove': prove_remove}[kind](src_root, ex)
+         'queue_remotely': prove_queue_remotely, 'request_site': prove_transfer_request_site, 'remove': prove_remove,
+         'stale': prove_stale_dispatch}[kind](src_root, ex)
     except Unsupported as e:
         res.errors.append(f'{kind}: unsupported: {e}')
     collect(res, ex)
     res.functions.update([f'{MGR}:TransferManager.{m}' for m in ('manage_transfers', '_get_queued_transfers', '_queue_remotely',
                                                                 '_on_peer_transfer_request', 'remove')])
     res.functions.update([f'{MODEL}:Transfer.{m}' for m in ('get_tasks', 'cancel_tasks', '_remotely_queue_task_complete', '_transfer_task_complete')])
-    res.functions.update([f'{STATE}:TransferState._cancel_transfer_tasks', f'{STATE}:TransferState._stop_transfer'])
+    res.functions.update([f'{STATE}:TransferState._cancel_transfer_tasks', f'{STATE}:TransferState._stop_transfer', f'{STATE}:_with_state_lock.<locals>.wrapper'])
     return res
